@@ -106,7 +106,8 @@ pub enum Op {
     /// a party restarts: every in-memory replica is dropped, one private and one public key are
     /// reloaded from what the store holds (written fault-free just before)
     Restart { sk: usize, pk: usize },
-    Sign { sk: usize, msg: Vec<u8>, ctx: Vec<u8>, mode: Mode, rnd: [u8; 32] },
+    /// `via_os`: through the OS-RNG convenience function, the kernel seam delivering `rnd`
+    Sign { sk: usize, msg: Vec<u8>, ctx: Vec<u8>, mode: Mode, rnd: [u8; 32], via_os: bool },
     /// transmit tuple `t`; `art`: 0 = signature, 1 = message, 2 = context
     Deliver { t: usize, fault: Option<(u8, Fault)> },
     SkToBytes { src: usize },
@@ -151,7 +152,7 @@ impl Op {
             Op::SkClone { src } => json!({"op":"sk_clone","src":src}),
             Op::PkClone { src } => json!({"op":"pk_clone","src":src}),
             Op::Restart { sk, pk } => json!({"op":"restart","sk":sk,"pk":pk}),
-            Op::Sign { sk, msg, ctx, mode, rnd } => json!({"op":"sign","sk":sk,"msg":hx(msg),"ctx":hx(ctx),"mode":mode.name(),"rnd":hx(rnd)}),
+            Op::Sign { sk, msg, ctx, mode, rnd, via_os } => json!({"op":"sign","sk":sk,"msg":hx(msg),"ctx":hx(ctx),"mode":mode.name(),"rnd":hx(rnd),"via_os":via_os}),
             Op::Deliver { t, fault } => json!({"op":"deliver","tuple":t,"artefact":fault.as_ref().map(|(a, _)| *a),"fault":fault.as_ref().map(|(_, f)| f.to_json()).unwrap_or(Value::Null)}),
             Op::SkToBytes { src } => json!({"op":"sk_to_bytes","src":src}),
             Op::PkToBytes { src } => json!({"op":"pk_to_bytes","src":src}),
@@ -171,7 +172,7 @@ impl Op {
             "sk_clone" => Op::SkClone { src: u("src")? },
             "pk_clone" => Op::PkClone { src: u("src")? },
             "restart" => Op::Restart { sk: u("sk")?, pk: u("pk")? },
-            "sign" => Op::Sign { sk: u("sk")?, msg: unhx(&v["msg"]), ctx: unhx(&v["ctx"]), mode: Mode::from_name(v["mode"].as_str()?)?, rnd: unhx32(&v["rnd"]) },
+            "sign" => Op::Sign { sk: u("sk")?, msg: unhx(&v["msg"]), ctx: unhx(&v["ctx"]), mode: Mode::from_name(v["mode"].as_str()?)?, rnd: unhx32(&v["rnd"]), via_os: v["via_os"].as_bool().unwrap_or(false) },
             "deliver" => Op::Deliver { t: u("tuple")?, fault: match fault()? { None => None, Some(f) => Some((v["artefact"].as_u64()? as u8, f)) } },
             "sk_to_bytes" => Op::SkToBytes { src: u("src")? },
             "pk_to_bytes" => Op::PkToBytes { src: u("src")? },
@@ -310,7 +311,9 @@ pub fn execute(set: &dyn DynSet, xi: &[u8; 32], xi_other: &[u8; 32], ops: &[Op],
                 let faulted = fault.is_some();
                 st.loads += 1;
                 match guard!(i, "PublicKey::try_from_bytes", set.pk_from_bytes(&b)) {
-                    None => {}
+                    None => {
+                        finds.push(Finding { prop: "C09", invariant: "pk-load-panics".into(), at_op: i, observed: format!("PublicKey::try_from_bytes panicked ({} bytes)", if faulted { "faulted" } else { "intact" }), expected: "every byte string of public-key length deserialises".into() });
+                    }
                     Some(Err(e)) => {
                         st.rejected_loads += 1;
                         finds.push(Finding { prop: "C09", invariant: "pk-rejected".into(), at_op: i, observed: format!("PublicKey::try_from_bytes = Err({e:?}) ({} bytes)", if faulted { "faulted" } else { "intact" }), expected: "every byte string of public-key length deserialises".into() });
@@ -391,11 +394,21 @@ pub fn execute(set: &dyn DynSet, xi: &[u8; 32], xi_other: &[u8; 32], ops: &[Op],
                     pks.push(PkRep { obj: set.keygen_seed(xi).0, honest: true, derived: false, prov: "gen".into() });
                 }
             }
-            Op::Sign { sk, msg, ctx, mode, rnd } => {
+            Op::Sign { sk, msg, ctx, mode, rnd, via_os } => {
                 st.signs += 1;
                 let s = &sks[sk % sks.len()];
                 let (honest, prov) = (s.honest, s.prov.clone());
-                let r = guard!(i, "sign", s.obj.sign_rng(&mut SimRng::healthy(rnd.to_vec()), msg, ctx, *mode));
+                let r = if *via_os {
+                    // OS-RNG convenience entry point; the kernel seam hands over exactly `rnd`
+                    let mut ks = crate::kernel::KState::new(rnd.to_vec(), vec![]);
+                    match guard!(i, "sign(OS RNG)", crate::kernel::with_kernel(&mut ks, || s.obj.sign_os(msg, ctx, *mode))) {
+                        Some(Some(r)) => Some(r),
+                        Some(None) => continue, // entry point not compiled in
+                        None => None,
+                    }
+                } else {
+                    guard!(i, "sign", s.obj.sign_rng(&mut SimRng::healthy(rnd.to_vec()), msg, ctx, *mode))
+                };
                 match r {
                     None => {}
                     Some(Err(e)) => {
@@ -409,8 +422,9 @@ pub fn execute(set: &dyn DynSet, xi: &[u8; 32], xi_other: &[u8; 32], ops: &[Op],
                         finds.push(Finding { prop: "C07", invariant: "signer-accepts-overlong-context".into(), at_op: i, observed: format!("signing ({}) with a {}-byte context returned a signature", mode.name(), ctx.len()), expected: "Err".into() });
                     }
                     Some(Ok(sig)) => {
-                        if honest {
+                        if honest && !*via_os {
                             // refinement: the reference object signs identically for the same randomness
+                            // (not demanded of the OS entry point: how it draws is C12's business)
                             if let Ok(Ok(ref_sig)) = catch(|| sk0.sign_rng(&mut SimRng::healthy(rnd.to_vec()), msg, ctx, *mode)) {
                                 if ref_sig != sig {
                                     finds.push(Finding { prop: "C09", invariant: "replica-signs-differently".into(), at_op: i, observed: format!("private-key replica `{prov}` and the never-restarted reference produce different signatures for the same message, context, mode and randomness"), expected: "identical signatures".into() });
@@ -453,6 +467,16 @@ pub fn execute(set: &dyn DynSet, xi: &[u8; 32], xi_other: &[u8; 32], ops: &[Op],
                     if !p.honest {
                         continue;
                     }
+                    if intact && tu.honest && !dec && !tu.ctx.is_empty() {
+                        // does the rejection depend on the context? re-sign the same message with the
+                        // reference key under an empty context and ask the same replica
+                        let probe = catch(|| {
+                            sk0.sign_rng(&mut SimRng::healthy(vec![7u8; 32]), &tu.msg, &[], tu.mode).map(|s2| p.obj.verify(&tu.msg, &s2, &[], tu.mode))
+                        });
+                        if let Ok(Ok(true)) = probe {
+                            finds.push(Finding { prop: "C07", invariant: "legal-context-rejected".into(), at_op: i, observed: format!("intact {} tuple with a {}-byte context rejected by replica `{}` although the same message with an empty context is accepted", tu.mode.name(), ctx.len(), p.prov), expected: "every context of 0..255 bytes is accepted".into() });
+                        }
+                    }
                     if intact && tu.honest && !dec {
                         finds.push(Finding { prop: "C01", invariant: "honest-tuple-rejected".into(), at_op: i, observed: format!("intact {} tuple (message {} bytes, context {} bytes) rejected by public-key replica `{}`", tu.mode.name(), msg.len(), ctx.len(), p.prov), expected: "verification returns true".into() });
                     }
@@ -493,7 +517,8 @@ pub fn execute(set: &dyn DynSet, xi: &[u8; 32], xi_other: &[u8; 32], ops: &[Op],
                         cat.extend_from_slice(&tu.msg);
                         // splits beyond 255 give an over-long context: the aliasing case of the length byte
                         // split codes >= 10000 ask for the aliasing boundary |ctx| + 256*(code-9999)
-                        let k = if *split >= 10_000 { tu.ctx.len() + 256 * (split - 9_999) } else { split % (cat.len().min(600) + 1) };
+                        // ... and code 20000 for |ctx| + 65536 (16-bit aliasing; needs a message over 64 KiB)
+                        let k = if *split >= 20_000 { tu.ctx.len() + 65_536 } else if *split >= 10_000 { tu.ctx.len() + 256 * (split - 9_999) } else { split % (cat.len().min(600) + 1) };
                         if k == tu.ctx.len() || k > cat.len() {
                             continue;
                         }
@@ -606,8 +631,9 @@ fn gen_fault(p: &mut Prng, len: usize, region_bias: Option<(usize, usize)>) -> F
     }
 }
 
-const MSG_LENS: [usize; 9] = [0, 1, 8, 135, 136, 137, 168, 1000, 3000];
-const CTX_LENS: [usize; 6] = [0, 1, 32, 200, 254, 255];
+// incl. lengths at which a slice boundary of the absorbed stream tr|dom|len|ctx|... meets a SHAKE256 block boundary
+const MSG_LENS: [usize; 12] = [0, 1, 8, 65, 70, 135, 136, 137, 168, 206, 1000, 3000];
+const CTX_LENS: [usize; 10] = [0, 1, 27, 32, 59, 70, 131, 200, 254, 255];
 
 /// Generate one seeded history.
 pub fn gen_history(p: &mut Prng, set: &dyn DynSet) -> Vec<Op> {
@@ -625,7 +651,9 @@ pub fn gen_history(p: &mut Prng, set: &dyn DynSet) -> Vec<Op> {
         let op = if k == 1 || (tuples == 0 && k > 3) || roll < 22 {
             tuples += 1;
             let (ml, cl) = (*p.pick(&MSG_LENS), *p.pick(&CTX_LENS));
-            Op::Sign { sk: p.usize_below(8), msg: p.bytes(ml), ctx: p.bytes(cl), mode: *p.pick(&MODES), rnd: p.array32() }
+            // now and then a message longer than 64 KiB (pre-hash bulk paths, 16-bit length aliasing)
+            let ml = if p.chance(1, 40) { 65_536 + 200 + p.usize_below(300) } else { ml };
+            Op::Sign { sk: p.usize_below(8), msg: p.bytes(ml), ctx: p.bytes(cl), mode: *p.pick(&MODES), rnd: p.array32(), via_os: p.chance(1, 5) }
         } else if roll < 47 {
             let fault = if faulty && tuples > 0 {
                 let art = p.below(3) as u8;
@@ -663,11 +691,11 @@ pub fn gen_history(p: &mut Prng, set: &dyn DynSet) -> Vec<Op> {
             3 => Op::DeliverLongCtx { t: p.usize_below(8), kind: p.below(4) as u8 },
             4 if p.chance(1, 2) => {
                 let cl = *p.pick(&[256usize, 257, 300, 511, 512, 1000, 65_791]);
-                let ml = *p.pick(&MSG_LENS[..6]);
-                Op::Sign { sk: p.usize_below(8), msg: p.bytes(ml), ctx: p.bytes(cl), mode: *p.pick(&MODES), rnd: p.array32() }
+                let ml = *p.pick(&MSG_LENS[..8]);
+                Op::Sign { sk: p.usize_below(8), msg: p.bytes(ml), ctx: p.bytes(cl), mode: *p.pick(&MODES), rnd: p.array32(), via_os: p.chance(1, 3) }
             }
             0 => Op::DeliverAs { t: p.usize_below(8), mode: *p.pick(&MODES) },
-            1 => Op::DeliverReframed { t: p.usize_below(8), split: match p.below(5) { 0 => *p.pick(&[256usize, 257, 300, 512]), 1 => p.usize_below(4), 2 => 10_000 + p.usize_below(2), _ => p.usize_below(256) } },
+            1 => Op::DeliverReframed { t: p.usize_below(8), split: match p.below(5) { 0 => *p.pick(&[256usize, 257, 300, 512]), 1 => p.usize_below(4), 2 => *p.pick(&[10_000usize, 10_001, 20_000]), _ => p.usize_below(256) } },
             2 => Op::DeliverCross { t: p.usize_below(8) },
             _ => continue,
         };
